@@ -1,6 +1,6 @@
 """Deciding equalities between rational functions that contain guarded selections (`jnp.where`).
 
-`prove_rational_equal(c, name, got, want, hyps)` discharges  assumptions /\\ path /\\ hyps => got == want
+`prove_rational_equal(c, name, got, want, hyps)` discharges  assumptions & path & hyps => got == want
 for scalar values (real or complex SymNum / numbers) in sound steps:
 
  1. every if-then-else in the two terms whose guard is decided by the hypotheses is replaced by the
@@ -35,6 +35,9 @@ import os
 _DEBUG = bool(os.environ.get("C35_DEBUG"))
 STEP_TIMEOUT_MS = 10000
 GUARD_TIMEOUT_MS = 3000
+GENERIC_Z3_MS = 8000
+GENERIC_CVC5_MS = 5000
+MAX_FAILURES_PER_TASK = 6
 
 
 def _check(c, hyps, extra, timeout_ms):
@@ -519,7 +522,7 @@ def _sign_classes(c, hyps):
 
 def find_counterexample(c, goal, hyps, tries=24, seed=0):
     """ground search: fix every free constant to a small rational that respects the sign bounds found in
-    the context; a satisfiable instance of assumptions /\ path /\ hyps /\ not goal is a genuine countermodel"""
+    the context; a satisfiable instance of assumptions & path & hyps & not goal is a genuine countermodel"""
     rnd = random.Random(seed)
     consts = _free_consts([goal, *hyps, *c.assumptions, *c.pathcond])
     info = _sign_classes(c, hyps)
@@ -570,6 +573,15 @@ def prove_rational_equal(c, name, got, want, hyps=(), relations=(), seed=0, nonz
     def done(status, backend, model=None, detail=""):
         ob = Obligation(name, status, backend, (time.time() - t0) * 1e3, path, model=model, detail=detail, tag=tag)
         c.session.record(ob)
+        if status != "discharged":
+            # a task whose obligations keep failing is cut short: the failures found so far are
+            # reported (violation / undecided); exploring every remaining path would only repeat them
+            n = getattr(c.session, "_rational_failures", 0) + 1
+            c.session._rational_failures = n
+            if n >= MAX_FAILURES_PER_TASK:
+                from vc.core import Undecided
+
+                raise Undecided(f"{n} obligations of this task failed (first failures are reported); task cut short")
         return status == "discharged"
 
     g_re, g_im = _parts(got)
@@ -612,5 +624,14 @@ def prove_rational_equal(c, name, got, want, hyps=(), relations=(), seed=0, nonz
     m = find_counterexample(c, goal, R.hyps, seed=seed)
     if m is not None:
         return done("refuted", "ground-evaluation(z3)", model=m)
-    status, backend, model, detail = c._discharge(z3.simplify(goal), R.hyps)
+    # generic route with bounded budgets (a goal that is not a polynomial identity is either simple
+    # enough for the solvers to settle quickly or is reported as undecided)
+    import vc.core as _core
+
+    saved = (_core.Z3_TIMEOUT_MS, _core.CVC5_TIMEOUT_MS)
+    _core.Z3_TIMEOUT_MS, _core.CVC5_TIMEOUT_MS = min(saved[0], GENERIC_Z3_MS), min(saved[1], GENERIC_CVC5_MS)
+    try:
+        status, backend, model, detail = c._discharge(z3.simplify(goal), R.hyps)
+    finally:
+        _core.Z3_TIMEOUT_MS, _core.CVC5_TIMEOUT_MS = saved
     return done(status, backend, model, detail)
